@@ -138,7 +138,7 @@ class Signal:
 
     def __copy__(self) -> "Signal":
         """Signal copying implementation
-        Keeps "public" fields such as name and width,
+        Keeps "public" fields such as name, width and usage,
         while dropping "per-module" fields such as `_slices`."""
         # Notably `_parent_module` *is not* copied.
         # It will generally be set when the copy is added to any new Module.
@@ -147,6 +147,7 @@ class Signal:
             width=self.width,
             vis=self.vis,
             direction=self.direction,
+            usage=self.usage,
             desc=self.desc,
             src=self.src,
             dest=self.dest,
